@@ -83,6 +83,9 @@ PROPS = {
     "C16": dict(pkg="c16", level="exploration",
                 quick=[R(checks=100, shards=8, env={"VERIF_JOURNAL": "1"}, timeout=900)],
                 thorough=[R(checks=600, shards=16, env={"VERIF_JOURNAL": "1"}, timeout=2400)]),
+    "C17": dict(pkg="c17", level="exploration",
+                quick=[R(checks=700), R(checks=60, shards=8, race=True, env={"VERIF_JOURNAL": "1", "GORACE": "halt_on_error=1"}, timeout=900)],
+                thorough=[R(checks=3000, shards=8, timeout=1800), R(checks=600, shards=16, race=True, env={"VERIF_JOURNAL": "1", "GORACE": "halt_on_error=1"}, timeout=2400)]),
     "C18": dict(pkg="c18", level="exploration",
                 quick=[R(checks=4000)],
                 thorough=[R(checks=20000, shards=16, timeout=1800)]),
@@ -246,18 +249,27 @@ def crash_violation(pid, out, replaydir, shard, run, statsdir):
     harness journals the case in flight; that journal becomes the replay file of the violation."""
     if not run["env"].get("VERIF_JOURNAL"):
         return False
-    if "panic: test timed out" in out or not re.search(r"^(panic: |fatal error: )", out, re.M):
+    if "panic: test timed out" in out or not re.search(r"^(panic: |fatal error: |WARNING: DATA RACE)", out, re.M):
         return False
     j = os.path.join(replaydir, "%s-inflight-%d.json" % (pid, shard))
     if not os.path.exists(j):
         return False
-    m = re.search(r"^(?:panic: |fatal error: )(.*)$", out, re.M)
+    m = re.search(r"^(?:panic: |fatal error: |WARNING: )(.*)$", out, re.M)
     what = m.group(1).strip()[:120] if m else "crash"
+    if m and m.group(1).startswith("DATA RACE"):
+        fr = re.search(r"github.com/sdcio/data-server/pkg/([A-Za-z0-9_/.()*]+)", out[m.start():])
+        sig = "%s:data-race:%s" % (pid, (fr.group(1) if fr else "unknown").replace("(", "").replace(")", "").replace("*", ""))
+        return _journal_violation(pid, out, m, sig, replaydir, shard, statsdir, "the race detector reported a data race while this case was running (halt_on_error)")
     frame = re.search(r"github.com/sdcio/data-server/pkg/([A-Za-z0-9_/.()*]+)", out[m.start():] if m else out)
     sig = "%s:process-crash:%s" % (pid, (frame.group(1) if frame else "unknown").replace("(", "").replace(")", "").replace("*", ""))
+    return _journal_violation(pid, out, m, sig, replaydir, shard, statsdir, "the worker process died while this case was running: " + what)
+
+
+def _journal_violation(pid, out, m, sig, replaydir, shard, statsdir, headline):
+    j = os.path.join(replaydir, "%s-inflight-%d.json" % (pid, shard))
     doc = json.load(open(j))
     doc["sig"] = sig
-    doc["detail"] = "the worker process died while this case was running: %s\n%s" % (what, out[m.start():m.start() + 2500] if m else "")
+    doc["detail"] = "%s\n%s" % (headline, out[m.start():m.start() + 3500] if m else "")
     dst = os.path.join(replaydir, "%s-%s.json" % (pid, re.sub(r"[^A-Za-z0-9_.-]", "_", sig)))
     json.dump(doc, open(dst, "w"))
     os.remove(j)
@@ -344,15 +356,25 @@ def run_replay(pid, path):
     cfg = PROPS[pid]
     work = tempfile.mkdtemp(prefix="verif-replay-")
     try:
-        b = build(cfg["pkg"], work)
+        try:
+            race = ":data-race:" in json.load(open(path)).get("sig", "")
+        except Exception:
+            race = False
+        b = build(cfg["pkg"], work, race=race)
         if b is None:
             return 2
         env = goenv()
         env.update(VERIF_REPLAY=os.path.abspath(path), VERIF_TMP=work)
-        p = subprocess.run([b, "-test.run", "^TestReplay$", "-test.timeout", "300s"], cwd=os.path.join(HARNESS, cfg["pkg"]), env=env,
-                           stdout=subprocess.PIPE, stderr=subprocess.STDOUT, text=True)
+        if race:
+            env["GORACE"] = "halt_on_error=1"
+        # a data race depends on the schedule: the stored case is repeated
+        for attempt in range(25 if race else 1):
+            p = subprocess.run([b, "-test.run", "^TestReplay$", "-test.timeout", "300s"], cwd=os.path.join(HARNESS, cfg["pkg"]), env=env,
+                               stdout=subprocess.PIPE, stderr=subprocess.STDOUT, text=True)
+            if p.returncode != 0:
+                break
         print(p.stdout)
-        if "REPLAY-FAIL" in p.stdout or ("panic: test timed out" not in p.stdout and re.search(r"^(panic: |fatal error: )", p.stdout, re.M)):
+        if "REPLAY-FAIL" in p.stdout or ("panic: test timed out" not in p.stdout and re.search(r"^(panic: |fatal error: |WARNING: DATA RACE)", p.stdout, re.M)):
             print("VIOLATION property=%s replay=%s" % (pid, path))
             return 1
         return 0 if p.returncode == 0 else 2
